@@ -15,6 +15,19 @@ PROPS = {
                     "metamorphic stream only", "float literals: differential against strconv only",
                     "string-literal unescaping: differential only"],
     },
+    "C16": {
+        "gens": [],
+        "lean": "Anko.Props.C16",
+        "streams": [{"name": "chan", "n_quick": 400, "n_thorough": 6000}],
+        "trusted": ["Go's channel implementation and scheduler realise the FIFO-buffer specification of lean/Anko/Model/Chan.lean (capacity, closed flag, rendezvous for capacity 0)",
+                    "the interpreter performs each channel operation as one reflect.Select / Close on the Go channel (the single-goroutine histories compare every result)"],
+        "assumptions": ["pipeline stages are the goroutines `for x in in { out <- f(x) }; close(out)`, producer `for v in items { c <- v }; close(c)`, consumer collecting by for-in",
+                        "a schedule is an arbitrary list of scheduler choices; disabled choices are skipped"],
+        "partial": ["the concurrent theorems are about the channel specification and the pipeline LTS, not about the interpreter's own code between two channel operations "
+                    "(that code is sequential and covered by the interpreter model only outside goroutines); 'go evaluates its arguments before it starts' is decided "
+                    "by the order stream (C07) and the go-args templates here, not by a theorem",
+                    "element conversion on send is checked differentially (templates) only"],
+    },
     "C15": {
         "gens": [],
         "lean": "Anko.Props.C15",
@@ -193,6 +206,19 @@ MANIFEST_TEXT = {
         "note": "Trusted: Lean kernel; goyacc (LALR tables not modelled); the grammar extractor (regex over parser.go.y, closed shapes). Follows fix a4e6d85 (-0b literals).",
         "technique": "Lean 4 proof (precedence-climbing round trip by induction on trees; decide over regenerated table) + metamorphic parser correspondence",
         "design_ref": "DESIGN.md section 6 (C03)",
+    },
+    "C16": {
+        "text": "Machine-checked proofs (Lean 4) over the Go channel specification (FIFO buffer, capacity, closed flag, rendezvous): for ANY "
+                "interleaving of sends, receives and closes by any number of goroutines, sent = received ++ buffered (exactly once, in order); "
+                "closed-and-drained receives yield nil/ok=false, send-on-closed and double close are errors that change nothing. For pipelines "
+                "of goroutines - any number of stages, any mix of buffered/unbuffered channels, any items - and EVERY schedule (arbitrary list "
+                "of scheduler choices): the total stream is invariant, so at termination the consumer holds exactly the items through all "
+                "stages in order; collected output is always a prefix of it; no reachable state is a deadlock; every move lowers a variant "
+                "(no infinite runs). Correspondence: single-goroutine channel histories (send/recv/recv-ok/close/for-in, typed and interface "
+                "channels) against the model; pipelines run repeatedly under GOMAXPROCS 1/2/4/16 against the expected sequence and the model.",
+        "note": "Trusted: Lean kernel; Go runtime channels = the specification; schedules of the real runs are whatever the runtime produces (sampled), the theorems cover all.",
+        "technique": "Lean 4 proof (LTS invariants by induction over arbitrary schedules, deadlock freedom, variant) + differential histories + repeated concurrent runs",
+        "design_ref": "DESIGN.md section 6 (C16)",
     },
     "C15": {
         "text": "Machine-checked proofs (Lean 4) over a function-by-function model of the scanner (lexer.go): for EVERY text no scanning loop "
